@@ -1170,6 +1170,7 @@ class NamespaceManager(dict):
                 elif self._default is None:
                     # no default namespace is defined, reused the one given
                     self._default = namespace
+                    self[""] = namespace
                     return qname  # no change, return the original
                 else:
                     # different default namespace,
